@@ -23,7 +23,14 @@ def _path():
     return c
 
 
-_walk.__name__, _path.__name__ = "get_page_tree_walk", "PageNode_path"
+def _writeout():
+    from bounded import c17
+    c = pages.writeout_copies(PROP)
+    c.search_fn = lambda: c17.search(nrandom=0, names=("copy_subdir in metadata", "project-level copy_subdir", "basic"))
+    return c
+
+
+_walk.__name__, _path.__name__, _writeout.__name__ = "get_page_tree_walk", "PageNode_path", "writeout_copies"
 
 
 def bd_task(names, label, seed, nrandom=0):
@@ -47,7 +54,7 @@ def build(tier, seed):
     set_tier(tier)
     names = list(c17.TREES)
     nrand = 6 if tier == "quick" else 40
-    tasks = [a_task(PROP, _walk), a_task(PROP, _path), Task(f"{PROP}.S.structural", PROP, "structural", lambda: pages.structural(PROP))]
+    tasks = [a_task(PROP, _walk), a_task(PROP, _path), a_task(PROP, _writeout), Task(f"{PROP}.S.structural", PROP, "structural", lambda: pages.structural(PROP))]
     tasks += [bd_task((n,), n.replace(" ", "_").replace("-", "_"), seed) for n in names]
 
     def rnd(i):
@@ -74,12 +81,14 @@ def build(tier, seed):
             "dict.fromkeys keeps first occurrences in insertion order (language guarantee) - the merge itself is recognised structurally, not proved",
             "PageNode.path: pathlib's `/` is a pure function of string forms",
         ],
-        "functions_under_contract": fn_meta([("ford.pagetree", "get_page_tree", "block contract: the loop over mergedfilelist; progress reporting"), ("ford.pagetree", "PageNode.path", None)]),
-        "unverified_surroundings": ["PageNode.__init__ (metadata, Markdown conversion)", "ford.output.PagetreePage.writeout (copying) - bounded only", "AliasPreprocessor, RelativeLinksTreeProcessor - bounded only",
+        "functions_under_contract": fn_meta([("ford.pagetree", "get_page_tree", "block contract: the loop over mergedfilelist; progress reporting"), ("ford.pagetree", "PageNode.path", None),
+                                             ("ford.output", "PagetreePage.writeout", "mkdir and super().writeout() are opaque calls; ghost lists record the copies carried out")]),
+        "unverified_surroundings": ["PageNode.__init__ (metadata, Markdown conversion)", "shutil.copy / copytree themselves (what a copy does on disk) - bounded only", "AliasPreprocessor, RelativeLinksTreeProcessor - bounded only",
                                     "info_page.html navigation - bounded only"],
         "explanation": "Proved for every directory listing: after the walk node.subpages and node.files are exactly the entry-by-entry fold of the merged list (hidden and backup "
                        "names contribute nothing; a directory contributes its sub-tree unless it has none; a .md file contributes its page unless it has no title; any other file "
                        "is recorded for copying), in list order, and the only exception that escapes is the ValueError for a listed entry that does not exist. A page's output path "
-                       "is <location>/<stem>.html.",
+                       "is <location>/<stem>.html. writeout hands every copy_subdir entry that stays inside the page's directory to copytree and every other file to "
+                       "shutil.copy, for index and non-index pages alike (ghost lists = folds over the two lists).",
     }
     return tasks, meta
